@@ -652,3 +652,18 @@ func pRows(res []models.SearchResult, decodeData bool) (string, error) {
 	}
 	return "(QRows " + pList(items) + ")", nil
 }
+
+func pOptB(b []byte) string {
+	if b == nil {
+		return "None"
+	}
+	return "(Some " + pB(b) + ")"
+}
+
+func pListB(bs [][]byte) string {
+	items := make([]string, len(bs))
+	for i, b := range bs {
+		items[i] = pB(b)
+	}
+	return pList(items)
+}
